@@ -88,11 +88,15 @@ def sid_tables(spec):
         kp[ALL]["{%s:%s}" % (T, b["code"])] = "{%s:(%s%s)}" % (T, b["code"], SEARCH)
         sel = b["name"] + "__"
         kp.setdefault(sel, {})
-        for k, kind, data in b["chain"]:
+        for k, kind, data in b["chain"] + [x for lf in b["leaves"] for x in lf["extra"]]:
             if kind in ("closed",):
                 kp[sel]["{%s}" % k] = "{%s:%s}" % (k, closed(data))
             elif kind == "digit":
                 kp["__"]["{%s}" % k] = "{%s:%s}" % (k, _pat(spec, k, kind, data))
+            elif kind == "open" and spec.get("open_pattern"):
+                # free-text keys with a pattern of their own (names must not contain the file-name separator): the pattern text
+                # itself contains the Sid separator
+                kp[sel]["{%s}" % k] = "{%s:(%s)}" % (k, spec["open_pattern"])
         Lb = b.get("leaf_key", L)      # a basetype may have its own leaf key
         for lf in b["leaves"]:
             extra = "".join("/{%s}" % k for k, _, _ in lf["extra"])
@@ -429,6 +433,14 @@ def op_third_path_config_demo_style(s):
     return s
 
 
+def op_name_patterns(s):
+    """Free-text keys get a value pattern that excludes '/' and the file-name separator ('[^/_]+'); the first basetype also gets
+    a level more, so that no other basetype has a leaf type of the same depth with pattern-free templates."""
+    s = op_insert_level(s)
+    s["open_pattern"] = "[^/%s]+" % s["sep"]
+    return s
+
+
 def op_default_not_first(s):
     """The default path configuration is not the first one listed."""
     s = copy.deepcopy(s)
@@ -448,7 +460,7 @@ OPERATORS = [("rename-keys", op_rename_keys), ("rename-basetypes", op_rename_bas
              ("separator", op_separator), ("folders", op_folders), ("vocabularies", op_vocabularies), ("digit-patterns", op_digits),
              ("third-basetype", op_third_basetype), ("third-path-config", op_third_path_config),
              ("explicit-levels", op_explicit_levels), ("default-not-first", op_default_not_first),
-             ("third-path-config-demo-style", op_third_path_config_demo_style)]
+             ("third-path-config-demo-style", op_third_path_config_demo_style), ("name-patterns", op_name_patterns)]
 
 
 def family(tier):
@@ -458,7 +470,7 @@ def family(tier):
         out[n] = f(DEMO)
     allspec = DEMO
     for n, f in OPERATORS:
-        if n in ("remove-level", "third-path-config-demo-style"):
+        if n in ("remove-level", "third-path-config-demo-style", "name-patterns"):
             continue  # insert + remove on the same basetype is covered by pairs; the third configuration keeps its own module there
         allspec = f(allspec)
     out["all-together"] = allspec
@@ -480,7 +492,7 @@ def validate(spec):
     for t, v in full.items():
         owners.setdefault("/".join(k for k, _ in parse_template(v)) + "|" + _disc(v), []).append(t)
     for t, v in full.items():
-        parts = v.split("/")
+        parts = _split_levels(v)
         for n in range(1, len(parts)):
             pre = "/".join(parts[:n])
             if pre not in full.values():
@@ -495,7 +507,7 @@ def validate(spec):
     # leaf templates end with the leaf key
     for b in spec["basetypes"]:
         for lf in b["leaves"]:
-            if not full[b["name"] + "__" + lf["type"]].split("/")[-1].startswith("{" + b.get("leaf_key", spec["leaf_key"])):
+            if not _split_levels(full[b["name"] + "__" + lf["type"]])[-1].startswith("{" + b.get("leaf_key", spec["leaf_key"])):
                 errs.append("leaf template does not end with the leaf key")
     # same key set => disjoint concrete vocabularies at one position at least
     byk = {}
@@ -526,6 +538,23 @@ def validate(spec):
         if len(set(m.values())) != len(m):
             errs.append(f"value mapping of {k} is not one-to-one")
     return errs
+
+
+def _split_levels(v):
+    """Split a template at the '/' between placeholders (a value pattern may itself contain '/')."""
+    out, cur, depth = [], "", 0
+    for ch in v:
+        if ch == "{":
+            depth += 1
+        elif ch == "}":
+            depth -= 1
+        if ch == "/" and depth == 0:
+            out.append(cur)
+            cur = ""
+        else:
+            cur += ch
+    out.append(cur)
+    return out
 
 
 def _disc(v):
